@@ -1351,6 +1351,7 @@ def oracle_circuit_resolve(r):
     labels = _circuit_labels(r)
     labels["only_last_op_of_a_moment_changes"] = _only_last_changes(c_sym)
     labels["parameterized"] = cirq.is_parameterized(c_sym)
+    labels["one_base_power_left_symbolic"] = _one_base_power("circuit_resolve", r)
     got = cirq.resolve_parameters(c_sym, pd)
     if not isinstance(got, cirq.Circuit):
         raise Violation(f"resolve_parameters(Circuit) returned {type(got).__name__}")
@@ -1505,7 +1506,50 @@ def _circuit_collapse(sub, r):
     return _collapses(trees, {sympy.Symbol(n): M.value_to_python(r["vals"][n]) for n in names}, set(names))
 
 
+def _one_base_power(sub, r) -> bool:
+    """(label; trigger of repaired defect FC10k, 5f3a374) a numeric (partial / one-step) substitution turns the base of a power into exactly 1 while the exponent
+    keeps a symbol: sympy keeps 1.0**c unevaluated, calls it constant, and canonicalize_half_turns then float()s it."""
+    rc = _rc(r)
+    if rc is not None:
+        if sub != "circuit_resolve":
+            return False
+        trees = CG.circuit_trees(rc)
+        names = [n for n in r.get("sub", []) if M.value_to_python(r["vals"].get(n, ["expr"])) is not None]
+        maps = [{sympy.Symbol(n): M.value_to_python(r["vals"][n]) for n in names}]
+    elif "case" in r and sub in ("gate_unitary", "gate_names", "cop_protocol"):
+        trees = CG.case_trees(r["case"])
+        maps = []
+        if sub == "gate_names":
+            names = [n for n in r.get("sub", []) if n in r["vals"] and M.value_to_python(r["vals"][n]) is not None]
+            maps.append({sympy.Symbol(n): M.value_to_python(r["vals"][n]) for n in names})
+        if r["wrap"] == "cop_pr":
+            maps.append({sympy.Symbol(n): M.value_to_python(v) for n, v in r.get("pr", {}).items() if M.value_to_python(v) is not None})
+    else:
+        return False
+    for submap in maps:
+        if not any(v == 1 for v in submap.values()):
+            continue
+        for t in trees:
+            o = M.to_sympy(t)
+            if not isinstance(o, sympy.Basic):
+                continue
+            for n in sympy.preorder_traversal(o):
+                if isinstance(n, sympy.Pow):
+                    try:
+                        b2, e2 = n.args[0].subs(submap), n.args[1].subs(submap)
+                    except Exception:
+                        return True
+                    if not getattr(b2, "free_symbols", None) and getattr(e2, "free_symbols", None):
+                        try:
+                            if abs(complex(b2) - 1) < 1e-12:
+                                return True
+                        except TypeError:
+                            pass
+    return False
+
+
 KNOWN_FEATURES = {
+
     # repr(ZipLongest) prints "cirq_google.ZipLongest(...)" (recorded as known: upstream's own test pins the string)
     "F10_ziplongest_repr": lambda sub, r: sub == "sweep_repr" and M.sweep_has(r["t"], {"ziplongest"}),
     # value_of returns a *sympy* number when arithmetic collapses (0.0*c + 1.0 -> sympy.Float(1.0)); a gate holding it is
